@@ -495,6 +495,25 @@ def r30(ctx: Ctx) -> RuleReport:
                             good = (f'is_atomic({l_tgt})', False) in facts
                             rep.add(f'{fi.fq}: recursion only into nested nodes', fi.loc(n), 'ok' if good else 'undecided')
                         else:
+                            # any further test on the *spelling* of the atom excludes some variables from being renamed
+                            names_of_atom = {l_tgt} | {norm(e) for m in ast.walk(loop) if isinstance(m, ast.Assign) and isinstance(m.targets[0], ast.Tuple)
+                                                       and isinstance(m.value, ast.Call) and isinstance(m.value.func, ast.Attribute)
+                                                       and m.value.func.attr == 'partition' and norm(m.value.func.value) == l_tgt for e in m.targets[0].elts[:1]}
+                            for f, pol in sorted(facts):
+                                try:
+                                    fe = ast.parse(f, mode='eval').body
+                                except SyntaxError:
+                                    continue
+                                spelled = [x for x in ast.walk(fe) if (isinstance(x, ast.Call) and isinstance(x.func, ast.Attribute)
+                                                                       and norm(x.func.value).split('[')[0] in names_of_atom
+                                                                       and x.func.attr in ('isalpha', 'isalnum', 'isidentifier', 'startswith', 'endswith', 'islower',
+                                                                                           'isupper', 'isdigit', 'isnumeric', 'isascii'))
+                                           or (isinstance(x, ast.Call) and norm(x.func) in ('re.match', 're.fullmatch', 're.search')
+                                               and any(norm(a) in names_of_atom for a in x.args))]
+                                if spelled:
+                                    rep.violation(f'{fi.fq}: every reference to a renamed variable is rewritten', fi.loc(n),
+                                                  f'the rewrite runs only when `{f}` is {pol}: a variable is any symbol (`_`, `_2`, `0a` ...), so a '
+                                                  f'reference whose spelling fails this test keeps its old name while its definition is renamed')
                             good = (f"{l_role} != '/'", True) in facts or (f"{l_role} == '/'", False) in facts
                             rep.add(f'{fi.fq}: the concept branch is never rewritten', fi.loc(n), 'ok' if good else 'undecided',
                                     '' if good else f'`{norm(n)[:60]}` can run on the concept branch: a concept spelled like a variable would be renamed')
